@@ -680,6 +680,8 @@ pub struct TeosdOpts {
     /// SIGKILL the process when the fake bitcoind receives its n-th request from it
     pub kill_at_request: Option<u64>,
     pub extra_args: Vec<String>,
+    /// run teosd under this command (e.g. `valgrind --error-exitcode=97 -q`)
+    pub wrapper: Vec<String>,
     /// extra `key = value` lines for teos.toml
     pub extra_conf: Vec<String>,
 }
@@ -700,7 +702,13 @@ impl Teosd {
         let out_path = datadir.join("teosd.out");
         let out = std::fs::OpenOptions::new().create(true).append(true).open(&out_path).map_err(|e| e.to_string())?;
         let err = out.try_clone().map_err(|e| e.to_string())?;
-        let mut cmd = std::process::Command::new(teosd_bin());
+        let mut cmd = if opts.wrapper.is_empty() {
+            std::process::Command::new(teosd_bin())
+        } else {
+            let mut c = std::process::Command::new(&opts.wrapper[0]);
+            c.args(&opts.wrapper[1..]).arg(teosd_bin());
+            c
+        };
         cmd.arg("--datadir").arg(datadir).args(&opts.extra_args).env("RUST_BACKTRACE", "0").stdin(std::process::Stdio::null()).stdout(out).stderr(err);
         cmd.env_remove("TEOS_VERIF_ABORT_AT").env_remove("TEOS_VERIF_TRACE");
         if let Some(n) = opts.abort_at {
@@ -805,7 +813,7 @@ pub fn run_remote_session<R>(btc: &FakeBitcoind, datadir: &Path, cfg: &TowerCfg,
         lock(&btc.st.0).kill_at_request = opts.kill_at_request;
         let mut t = Teosd::spawn(datadir, cfg, btc.port, opts).map_err(BootError::Source)?;
         lock(&btc.st.0).victim_pid = Some(t.child.id());
-        let r = btc.wait_parked(Instant::now() + Duration::from_secs(60), &mut || t.alive());
+        let r = btc.wait_parked(Instant::now() + Duration::from_secs(if opts.wrapper.is_empty() { 60 } else { 600 }), &mut || t.alive());
         match r {
             Ok(idx) => break (t, idx),
             Err(e) => {
@@ -851,7 +859,7 @@ pub fn run_remote_session<R>(btc: &FakeBitcoind, datadir: &Path, cfg: &TowerCfg,
     if let (StopMode::Graceful, true) = (&stop, alive_at_end) {
         let asked = api.stop();
         btc.release_polls();
-        graceful_exit = Some(asked && teosd.wait_exit(Duration::from_secs(20)).is_some());
+        graceful_exit = Some(asked && teosd.wait_exit(Duration::from_secs(if opts.wrapper.is_empty() { 20 } else { 300 })).is_some());
     }
     teosd.kill();
     let output = teosd.output();
